@@ -52,6 +52,8 @@ type turnScript struct {
 	maxStale  int
 	staleRun  int
 	noSilence bool
+	// dropBindings: that many Binding requests are not answered (lost)
+	dropBindings int
 }
 
 func (ts *turnScript) draw(w [5]int) int {
@@ -92,6 +94,11 @@ func (ts *turnScript) handler(s *sim.ScriptedServer, from *net.UDPAddr, ev sim.S
 	_, hasMI := m.Get(wire.AttrMessageIntegrity)
 	switch m.Method {
 	case wire.MethodBinding:
+		if ts.dropBindings > 0 {
+			ts.dropBindings--
+
+			return
+		}
 		b := wire.NewBuilder(wire.MethodBinding, wire.ClassSuccess, m.TID)
 		b.AddXorAddr(wire.AttrXORMappedAddress, from.IP, from.Port)
 		s.Send(from, b.Bytes(), 0)
@@ -767,6 +774,13 @@ func (x *c13) drainAndCompare() {
 
 // liveness: the client's inbound path still works (a Binding transaction completes).
 func (x *c13) liveness(when string) {
+	if x.rng.Intn(3) == 0 {
+		// the first transmission of the probe is lost: it completes through a retransmission
+		x.ts.mu.Lock()
+		x.ts.dropBindings = 1
+		x.ts.mu.Unlock()
+		x.rec.Ev("liveness-probes-that-need-a-retransmission")
+	}
 	done := make(chan error, 1)
 	go func() {
 		_, err := x.rc.Client.SendBindingRequestTo(x.srv.Addr)
